@@ -7,22 +7,34 @@ LEVEL = "other"
 LEAN_IMPORTS = ["WM.Props.C17"]
 THEOREMS = ["WM.C17.positions", "WM.C17.offsets", "WM.C17.mode_agree_chain", "WM.C17.mode_agree_ngrams",
             "WM.C17.findable", "WM.C17.findable_chain", "WM.C17.findable_ngramwords", "WM.C17.highlight",
-            "WM.C17.findable_postings", "WM.C17.findable_postings_chain", "WM.C17.findable_postings_ngramwords"]
+            "WM.C17.findable_postings", "WM.C17.findable_postings_chain", "WM.C17.findable_postings_ngramwords",
+            "WM.C17.mode_agree_multi", "WM.C17.findable_multi"]
 _MODELLED = (
     "holds for the modelled components only: regular-expression tokenizers (default pattern, space- and "
-    "comma-separated), IDTokenizer, NgramTokenizer and the Lowercase/Strip/Pass/Stop/Ngram/BiWord filters - not "
-    "'all shipped analyzers/filters': stemmers, intraword/compound/shingle/tee/multi/metaphone/charset/delimited "
-    "components and the language analyzers are decided by the end-to-end relation test only (exploration)")
+    "comma-separated, \\S+), IDTokenizer, NgramTokenizer and the Lowercase/Strip/Pass/Stop/Ngram/BiWord filters, the "
+    "text-rewriting filters Charset/ReverseText/Substitution (string function as parameter), StemFilter (stemming "
+    "function as parameter) and MultiFilter - not 'all shipped analyzers/filters': the stemming algorithms themselves, "
+    "intraword/compound/shingle/tee/metaphone/delimited components and the language analyzers are decided by the "
+    "end-to-end relation test only (exploration)")
 PARTIAL = {
-    "WM.C17.positions": _MODELLED + "; stated for a .regex tokenizer followed by Lowercase/Strip/Pass/Stop filters "
+    "WM.C17.positions": _MODELLED + "; stated for a .regex tokenizer followed by Lowercase/Strip/Pass/Stop/text-rewriting/"
+                        "Stem filters and MultiFilters of those "
                         "(ngram and biword chains also preserve offsets but are not covered by the theorem)",
-    "WM.C17.offsets": _MODELLED + "; stated for a .regex tokenizer followed by Lowercase/Strip/Pass/Stop filters",
+    "WM.C17.offsets": _MODELLED + "; stated for a .regex tokenizer followed by Lowercase/Strip/Pass/Stop/text-rewriting "
+                      "filters (the token's text is the chain's text function applied to text[startchar:endchar])",
     "WM.C17.mode_agree_chain":
-        "true by construction of the model: `runFilter` ignores `mode` for every filter but the n-gram ones and "
-        "`removestops` is a constant of the filter, not a per-call flag. The property's risk - a shipped filter that "
-        "behaves differently per mode, or index and query calls with different removestops - is excluded by the model, "
-        "not proved; it is only correspondence-tested (real tokens in both modes, with and without removestops, "
-        "against the model on every run) and relation-tested end to end. " + _MODELLED,
+        "for chains without n-gram filters and without MultiFilter (hypothesis `modeFree`): for those the model's "
+        "`runFilter` does not read `mode`, as the code of these filters does not, so the statement is close to true by "
+        "construction; the mode-dependent shipped components are covered by mode_agree_ngrams and mode_agree_multi. "
+        "`removestops` is a constant of the filter, not a per-call flag: index and query calls with different "
+        "removestops are excluded by the model, not proved (correspondence-tested in both modes with and without "
+        "removestops on every run, relation-tested end to end). " + _MODELLED,
+    "WM.C17.mode_agree_multi":
+        "MultiFilter really selects its branch by the stream's mode in the model; the theorem needs `hbr` (the query "
+        "branch only yields texts the index branch yields from the same tokens - true of two equal NgramFilters, meant "
+        "to be true of the IntraWordFilter pair of the documentation, which is not modelled) and text-wise filters after "
+        "it (Lowercase/Strip/Pass/Stop/text-rewriting; Stem, Ngram, BiWord after a MultiFilter are not covered)",
+    "WM.C17.findable_multi": "see mode_agree_multi and findable",
     "WM.C17.mode_agree_ngrams": _MODELLED,
     "WM.C17.findable":
         "a statement about the token list (`termMatches`/`phraseMatches` are defined on it): it does not reach the "
@@ -124,7 +136,9 @@ def _work(args):
                     break
                 src = text[sc:ec]
                 ok = True
-                if rel == "exact":
+                if callable(rel):
+                    ok = rel(src, tt)
+                elif rel == "exact":
                     ok = tt == src
                 elif rel == "lower":
                     ok = tt == src.lower()
@@ -133,9 +147,9 @@ def _work(args):
                 elif rel == "striplower":
                     ok = tt == src.strip().lower()
                 if not ok:
-                    cause = rel
+                    cause = rel if isinstance(rel, str) else rel.name
                     if any(len(ch.lower()) != 1 for ch in text):
-                        cause = rel + ":length-changing-lowercase"
+                        cause = cause + ":length-changing-lowercase"
                     viol("offsets:text-mismatch:" + cause, text, src, (tt, sc, ec),
                          "text[startchar:endchar] is not the token's source text")
                     break
@@ -205,7 +219,13 @@ def _work(args):
                         parser_cache[fname] = qparser.QueryParser(fname, schema)
                     qp = parser_cache[fname]
                     pieces = [text]
-                    if kind == "analyzer" and onepos and name not in A.NO_CHARS:
+                    # (not for a tokenizer whose expression looks around - the URL pattern ends a URL
+                    # "at a dot followed by the end": where such a match ends depends on what follows
+                    # it, so a source word typed on its own is legitimately cut differently)
+                    tkz = getattr(field.analyzer, "items", [field.analyzer])[0]
+                    pat = getattr(getattr(tkz, "expression", None), "pattern", "") or ""
+                    lookaround = any(x in pat for x in ("(?=", "(?!", "(?<=", "(?<!"))
+                    if kind == "analyzer" and onepos and name not in A.NO_CHARS and not lookaround:
                         # word-by-word analyzers: also single source words, as a user would type them
                         # (the first, the last and some in between: a word must be analysed the same
                         # way wherever it stands in the text)
@@ -423,7 +443,7 @@ def _format_work(cases):
 def _correspondence(ctx):
     from gen import analysis as A
     rng = ctx.rng("corr")
-    n = ctx.budget(300, 2500)
+    n = ctx.budget(220, 2500)
     texts = [u"", u" ", u"a", u"The a.b x", u"a..b .c. d.e.f_g", u"x,y , z,,", u"  lead and trail  "]
     texts += [A.gen_text(rng) for _ in range(n)]
     # the per-character lower-casing of the model is str.lower() except for the final-sigma rule
@@ -569,10 +589,10 @@ def replay(ctx, rec):
 
 
 EXPLANATION = (
-    "Correspondence: 23 shipped analyzer configurations built from the modelled tokenizers/filters are run on generated "
+    "Correspondence: 34 analyzer configurations built from the modelled tokenizers/filters are run on generated "
     "multi-script texts in both modes with and without removestops; the real tokens (text, pos, startchar, endchar, "
     "stopped) must equal the Lean model's; Formatter.format_fragment is compared on random fragments. End-to-end: "
-    "every shipped analyzer/filter (70 configurations incl. one LanguageAnalyzer per language) in TEXT fields with "
+    "every shipped analyzer/filter (65 configurations incl. one LanguageAnalyzer per language) in TEXT fields with "
     "characters / positions / frequencies and every built-in text field type: index the text, then search by each "
     "own token, by the conjunction of the query-time tokens, by what QueryParser.term_query builds for the text and "
     "its words, by phrases of consecutive positions; check positions and offsets against the source text; highlight "
@@ -588,23 +608,26 @@ ASSUMPTIONS = [
     "in findable_postings*, against C10's specification of the posting lists under the hypothesis that the posting writer "
     "receives exactly the analysed tokens; that the matchers turn posting lists into matching documents is C01 and is "
     "not composed",
-    "index-time and query-time calls use the same removestops flag and no shipped filter but the n-gram ones looks at "
-    "`mode` (built into the model; correspondence-tested, not proved)",
+    "index-time and query-time calls use the same removestops flag; of the modelled filters only the n-gram ones and "
+    "MultiFilter look at `mode` (as in the code; correspondence-tested in both modes, not proved)",
+    "CharsetFilter's translate table, SubstitutionFilter's pattern.sub and the stemming functions enter the model as "
+    "functions tabulated from the running code on the words/characters of each text",
 ]
 TRUSTED = ["Python's re and unicodedata (character classes), str.lower/strip"]
 
 MANIFEST = {
     "level_text": "Lean theorems (no bounds) over an executable model of the regular-expression tokenizers (default "
                   "pattern, space- and comma-separated), IDTokenizer, NgramTokenizer, Lowercase/Strip/Pass/Stop/Ngram/"
-                  "BiWord filters, the position/character recording of the formats and Formatter.format_fragment: "
+                  "BiWord filters, Charset/ReverseText/Substitution/Stem filters with their string function as parameter, "
+                  "MultiFilter (branch chosen by the stream's mode), the position/character recording of the formats and Formatter.format_fragment: "
                   "positions strictly increase (also after a renumbering StopFilter), offsets delimit the token's "
                   "source and do not overlap, query-time tokens are index-time tokens (identical for mode-free chains, "
                   "a subset for n-grams), own tokens / query-time conjunction / consecutive-position phrases match, a "
                   "formatted fragment stripped of markup is one slice of the text and marked spans are matches. Tied "
-                  "to the code by a differential run on 23 analyzer configurations and on format_fragment, plus an "
+                  "to the code by a differential run on 34 analyzer configurations and on format_fragment, plus an "
                   "end-to-end relation test of every shipped analyzer/filter x text field type x fragmenter x formatter.",
-    "level_note": "Level `other`: proof for the modelled chains; stemmers, intraword/compound/shingle/tee/metaphone/"
-                  "charset components and the fragmenters are decided by the end-to-end relation test only "
+    "level_note": "Level `other`: proof for the modelled chains; stemming algorithms, intraword/compound/shingle/tee/metaphone/"
+                  "delimited components and the fragmenters are decided by the end-to-end relation test only "
                   "(exploration). Trusted: Lean kernel + propext/Quot.sound/Classical.choice; the model mirrors the "
                   "code only as far as the differential run shows; CPython's Unicode tables and re.",
     "technique": "machine-checked proof in Lean 4 over an executable model + differential correspondence check + "
